@@ -77,6 +77,17 @@ NewActs(k) ==
     : via \in {"new_record", "factory"},
       fv \in {x \in FormalDiff1(k) : ~(k = "membership" /\ x[1] = "entity")} }   \* (the unclaimed path)
 
+(* the typed convenience factories, with other_attributes as a pair list that repeats a name *)
+SubNewActs(k) ==
+  LET two == << <<NameQN("ex", A, <<"attr">>), [t |-> "str", v |-> "s1"]>>,
+                <<NameQN("ex", A, <<"attr">>), [t |-> "int", v |-> "7"]>> >>
+      vias == IF k = "derivation" THEN {"revision", "quotation", "primary_source"}
+              ELSE IF k = "entity" THEN {"collection"} ELSE {}
+  IN { [op |-> "NewRec", h |-> "doc", k |-> k, via |-> via, id |-> <<NamePL("ex", <<"r">>)>>,
+        formals |-> [i \in 1..m |-> <<Formals[k][i], SchemeVal(Formals[k][i], "pl")>>],
+        extras |-> e]
+       : via \in vias, m \in IF k = "entity" THEN {0} ELSE {2, Len(Formals[k])}, e \in {<<>>, two} }
+
 ExtraName == { NameQN("ex", A, <<"attr">>), NamePL("ex", <<"attr">>), NameBare(<<"attr">>) }
 ExtraVals ==
   { [t |-> "str", v |-> "s1"], [t |-> "int", v |-> "1"], [t |-> "float", v |-> "h"],
@@ -127,7 +138,7 @@ Step(a) == /\ ms' = ApplyF(ms, a).st
               THEN PrintT("TR " \o ToJson(hist')) ELSE TRUE
 
 New == /\ Len(hist) = NSetup
-       /\ \E k \in UseKinds : \E a \in NewActs(k) : Step(a)
+       /\ \E k \in UseKinds : \E a \in NewActs(k) \cup SubNewActs(k) : Step(a)
 Follow == /\ Len(hist) > NSetup /\ Len(hist) < NSetup + 1 + MaxFollow
           /\ Len(ms.con["doc"].recs) = 3          \* the construction succeeded
           /\ \E a \in FollowActs(hist[NSetup + 1].k) : Step(a)
